@@ -569,6 +569,17 @@ func (ag *simAgent) readerLoop(node int) {
 		case "applydrop":
 			r.Answer = "applydrop"
 			_, _ = r.exec()
+		case "latedelay":
+			// the server gets to the request only after the delay (executes it then, and answers)
+			r.Answer = "delay"
+			rr := r
+			vrt.AfterFunc(ans.Delay, func() {
+				if rr.done {
+					return
+				}
+				res, err := rr.exec()
+				rr.complete(res, err)
+			})
 		case "delay":
 			r.Answer = "delay"
 			res, err := r.exec()
